@@ -32,7 +32,7 @@ ASSUMPTIONS = ["the two runs keep the same relative placement of output director
                "comment holding its own path relative to the definition root)",
                "byte differences between regenerated and shipped core_defs.py are reported as information (formatter versions may "
                "differ); the semantic signature must be equal"]
-REQUIRE = {"outputs_compiled_alone": 60, "compiled_into_used_directory": 30, "closures_compiled_twice": 25, "output_files_compared": 150, "combined_roundtrips": 25, "core_defs_classes_compared": 50}
+REQUIRE = {"combined_recompiled_through_cli": 8, "outputs_compiled_alone": 60, "compiled_into_used_directory": 30, "closures_compiled_twice": 25, "output_files_compared": 150, "combined_roundtrips": 25, "core_defs_classes_compared": 50}
 CASE_TIMEOUT = 300
 OUTS = ["out.py", "out.h", "out.js", "out.m", "out_combined.yaml", "out.txt"]
 
@@ -172,6 +172,30 @@ def run_case(case, tier):
             if s0[k] != s1[k]:
                 V.append({"mech": "combined_yaml_changes_definition", "detail": f"{k}: {str(s0[k])[:200]} became {str(s1[k])[:200]}"})
                 break
+        if case["n"] % 3 == 0:
+            # the combined YAML compiled again the way a user would (command line, which honours the options written in it):
+            # sizes and layouts of the Python classes must be those of the original compilation
+            od = work / "recombined"
+            od.mkdir()
+            rc2, txt2 = L.compile_closure(comb, od, name="out", langs=("py",), cli=True, hashseed="2")
+            if rc2 != 0:
+                V.append({"mech": "combined_yaml_does_not_compile:cli", "detail": txt2[-300:]})
+            else:
+                (work / "lpa").mkdir()
+                (work / "lpb").mkdir()
+                pa, pb = L.load_py(a.out / "out.py", work / "lpa"), L.load_py(od / "out.py", work / "lpb")
+                if pa.get("ok") and pb.get("ok"):
+                    C["combined_recompiled_through_cli"] = 1
+                    for cname, ca in pa["classes"].items():
+                        cb = pb["classes"].get(cname)
+                        if cb is None:
+                            V.append({"mech": "combined_yaml_loses_definitions", "detail": f"{cname} missing from the module compiled from the combined YAML"})
+                            break
+                        bad = [k for k in ("type_id", "type_size", "sizeof", "fields") if ca.get(k) != cb.get(k)]
+                        if bad:
+                            V.append({"mech": "combined_yaml_changes_definition:cli", "detail": f"{cname}.{bad[0]}: {str(ca.get(bad[0]))[:160]} became {str(cb.get(bad[0]))[:160]}; "
+                                                                                           f"options in the combined file: {[l.strip() for l in comb.read_text().splitlines() if l.strip().startswith(('AUTO_PAD', 'VALIDATE', 'IMPORT_COREDEFS'))]}"})
+                            break
         res["sets"]["shape"] = [prog["shape"]]
         if case["n"] % 9 == 0:
             res["sample"] = {"seed": case["seed"], "shape": prog["shape"], "files": list(prog["files"]), "outputs_compared": OUTS}
